@@ -160,9 +160,41 @@ CLAIMED["C10"] = (
     "DESIGN.md section 5, C10",
 )
 
+CLAIMED["C07"] = (
+    "widgets-listbox",
+    "exploration",
+    "Seeded histories on ListBox over SimpleListWalker, SimpleFocusListWalker and a minimal custom walker (0-10 flow items: Text of "
+    "0/1/many rows, Edit, Button, CheckBox, Divider, Pile, zero-row widgets, items taller than the box): navigation keys, characters, "
+    "button-1 presses and wheel events, set_focus (any coming_from), set_focus_valign, focus_position writes, walker insert/delete/"
+    "replace/clear, resizes 1x1..30x12, with render as an explicit step because focus and alignment requests are deferred until a size "
+    "is known and resolved by whichever of render/keypress/mouse_event comes first. At every render: no exception, the rows are a "
+    "contiguous slice of the concatenated item renderings followed only by blanks, a row of the focus item (and its cursor row) is "
+    "visible, no blank above the first item, trailing blanks only when scrolled to the top, clicks focus the clicked selectable item, "
+    "keypress returns None or the key. Sampling, not proof.",
+    "Item renderings are the model (layout trusted); wrap-around walkers and focus-dependent item heights are not generated; when "
+    "several slice offsets fit (duplicate rows) any is accepted.",
+    "deterministic simulation: seeded user/application interleavings with explicit render and resize steps against a contiguous-slice model",
+    "DESIGN.md section 5, C07",
+)
+CLAIMED["C08"] = (
+    "widgets-containers",
+    "exploration",
+    "Seeded histories on nestings (depth <= 3, <= 10 leaves) of Pile, Columns, GridFlow, Frame, Overlay and ListBox around recording "
+    "leaves that log every keypress, mouse_event and render(focus) they receive: navigation keys, characters, button-1 presses, "
+    "focus_position and set_focus_path writes (valid and invalid), contents insert/delete/slice assignment/clear, header/footer/body "
+    "replacement, resizes and renders. After every step: focus_position valid and contents[focus_position] is focus (IndexError for "
+    "empty containers and invalid assignments, which change nothing), keys only reach leaves on the focus path, unhandled keys come "
+    "back unchanged, arrow keys land on selectable children, selectable() follows the contents just set, only the focus path is "
+    "rendered with focus, a saved focus path can be written back. Sampling, not proof.",
+    "The focus path is read at the moment a key or focused render reaches a leaf (ListBox resolves pending focus inside keypress/"
+    "render); one known finding (ListBox scrolling onto unselectable items) is recorded.",
+    "deterministic simulation: seeded user/application interleavings on recording leaves against a focus-validity model",
+    "DESIGN.md section 5, C08",
+)
+
 PENDING = {
     p: "claimed in DESIGN.md; its simulation engine is not built yet in this tree, so no check is registered for it at this commit"
-    for p in ("C07", "C08")
+    for p in ()
 }
 
 
